@@ -46,6 +46,12 @@ def run_case(case, obs):
         k = int(rng.integers(V))
         if np.isfinite(ub[k]):
             x[k] = ub[k]          # start on a bound
+    for k in range(V):
+        if np.isfinite(lb[k]) and rng.random() < 0.08:
+            # coinciding bounds are valid: a bound range of zero (a relative magnitude is a fraction of it: zero)
+            ub[k] = lb[k]
+            x[k] = lb[k]
+            obs.count("variables_with_coinciding_bounds")
     ptypes = np.where(np.isfinite(lb) & np.isfinite(ub) & (rng.random(V) < 0.5), 2, 1)
     mags = np.where(ptypes == 2, rng.uniform(0.01, 0.5, size=V), 10 ** rng.uniform(-3, 0.5, size=V))
     btypes = rng.integers(1, 4, size=V)
@@ -117,7 +123,8 @@ def run_case(case, obs):
     # earlier evaluation did to the arrays of the samplers may show)
     for k_eval in range(int(rng.integers(1, 4))):
         if k_eval:
-            x = np.array([rng.uniform(max(l, -3), min(u, 3)) for l, u in zip(lb, ub)])
+            Uk = np.broadcast_to(np.asarray(U, dtype=float), (V,))
+            x = np.array([rng.uniform(l if np.isfinite(l) else min(-3 * uk, u), u if np.isfinite(u) else max(3 * uk, l)) for l, u, uk in zip(lb, ub, Uk)])
             obs.count("later_gradient_of_same_evaluator")
         xin = np.asarray(cfg.variables.initial_values, dtype=float) if k_eval == 0 else (T.variables.to_optimizer(x) if T is not None else x)
         path = "combined" if rng.random() < 0.5 else "split"
